@@ -266,6 +266,17 @@ class Judge:
         lenient = self.ref.internal_default_applies(v)
         if lenient:
             col.count("ambiguous: TEXTTABLE default value")
+            # valid or not - if the conversion answers, the answer is the default text
+            st, res = self._call(cm.convert_internal_to_physical, v)
+            col.ev()
+            if st == "foreign":
+                self.bad(("i2p-foreign-exception", self.cat, self.tp, type(res).__name__),
+                         "convert_internal_to_physical", v, problem=repr(res))
+            elif st == "ok" and res != self.ref.phys_default:
+                self.bad(("i2p-wrong", self.cat, self.tp, "default-value"),
+                         "convert_internal_to_physical", v, expected=self.ref.phys_default,
+                         observed=res)
+            return
         elif bool(obs_valid) != valid:
             detail = self._limit_detail(v)
             if self.cat == "TEXTTABLE" and self.ref.int_default is not None and not valid:
@@ -377,6 +388,11 @@ class Judge:
             self.ref.int_internal and isinstance(exact, Fraction) and exact.denominator != 1) \
             and not self.limit_tie and not self._near_limit_image(p) and \
             not (isinstance(exact, Fraction) and self._near_limit_noise(exact))
+        # a tie at the image of a limit makes the choice of the scale a matter of rounding
+        mono_claim = self.cat == "SCALE-LINEAR" and self.mono and not self.limit_tie and \
+            (origin is not None or in_range) and agree and kind == "val"
+        # ... and whatever the library itself declares valid for such a method must encode
+        mono_claim = mono_claim or (self.cat == "SCALE-LINEAR" and self.mono and bool(vp))
         if st == "foreign":
             if vp or ref_valid or identity_claim:
                 self.bad(("p2i-foreign-exception", self.cat, self.tp,
@@ -386,7 +402,7 @@ class Judge:
             return
         if st == "odxerror":
             image_rejected = identity_claim and not vp  # reported above already
-            if self.cat == "SCALE-LINEAR" and self.mono and (origin is not None or in_range or vp):
+            if mono_claim:
                 col.count("monotone-encode-attempts")
                 self.bad(("cannot-encode-monotone", self.cat, self.tp),
                          "convert_physical_to_internal", p, problem=repr(c),
@@ -403,15 +419,19 @@ class Judge:
                          "convert_physical_to_internal", p, problem=repr(c),
                          expected=str(exact) if ref_valid else origin, origin_internal=origin)
             return
-        if self.cat == "SCALE-LINEAR" and self.mono and (origin is not None or in_range):
+        if mono_claim:
             col.count("monotone-encode-attempts")
         judged = False
-        if agree and kind == "val":
+        if agree and kind == "val" and not (self.cat == "SCALE-LINEAR" and self.limit_tie):
             judged = True
             if isinstance(exact, str) or isinstance(c, str):
                 ok = c == exact
             else:
                 ok = accept_numeric(c, exact, self.it, self.ref.p2i_magnitude(p))
+                if not ok and self.cat == "SCALE-LINEAR" and self.ref.int_physical:
+                    # rounding blurs which scale owns p: any valid internal value whose image
+                    # rounds to p is a correct encoding
+                    ok = self._encodes(c, p)
             if not ok:
                 self.bad(("p2i-wrong", self.cat, self.tp), "convert_physical_to_internal", p,
                          expected=str(exact), observed=c, origin_internal=origin)
@@ -443,6 +463,13 @@ class Judge:
                              "convert_physical_to_internal", p, observed=c,
                              note="is_valid_physical_value(p) is True, the result is rejected by "
                              "is_valid_internal_value and lies outside the declared limits")
+
+    def _encodes(self, c: Any, p: Any) -> bool:
+        if isinstance(c, bool) or not isinstance(c, (int, float)):
+            return False
+        ok, (kind, img) = self._agree(lambda ref: ref.i2p_exact(c))
+        return ok and kind == "val" and isinstance(img, Fraction) and \
+            accept_numeric(p, img, self.pt, self.ref.i2p_magnitude(c))
 
     def _near_limit_image(self, p: Any) -> bool:
         """real physical type: p cannot be told from the image of a limit in double arithmetic"""
